@@ -21,6 +21,13 @@ export VERIF_REPO="$wt"
 rc=0
 for id in "$@"; do
   ( cd "$vf" && ./check "$id" quick 2>&1 | grep -v conda | cut -c1-260 | sed "s#$vf#<scratch>#g" )
+  # why (first replay): the engine and the oracle's or comparison's verdict
+  for r in "$vf"/replays/"$id"/quick-*-0.json; do
+    [ -f "$r" ] && python3 -c "
+import json,sys
+d=json.load(open('$r')); fi=d.get('failing_input') or {}
+print('  WHY', d.get('kind'), '|', fi.get('engine'), '|', (fi.get('why') or fi.get('kind') or str(d.get('no_longer_checks'))[:200])[:220])" 2>/dev/null
+  done
 done
 git -C /repo worktree remove --force "$wt"; git -C /repo worktree prune
 rm -rf "$root"
